@@ -195,9 +195,19 @@ def check_tree(data: dict, lab: Labels) -> None:
         exp: list = []
         ref_pre(root_e, prune_e, sel, exp, [])
         arg: Any = clss[0] if len(clss) == 1 else clss
-        got = list(root.gather(arg, exact_type=exact,
-                               extra_filter=lambda info: bool(fm >> cidx[live_key(info)] & 1),
+        asked: list = []
+
+        def extra(info, fm=fm, asked=asked):  # noqa: ANN001
+            asked.append(info.node)
+            return bool(fm >> cidx[live_key(info)] & 1)
+
+        got = list(root.gather(arg, exact_type=exact, extra_filter=extra,
                                prune=lambda info: bool(pm >> cidx[live_key(info)] & 1)))
+        # the extra filter restricts the stream of the requested classes: it is written against them and is
+        # not consulted for anything else
+        for nd in asked:
+            require((type(nd) in clss) if exact else isinstance(nd, clss), "gather",
+                    f"classes={names} exact={exact}: extra_filter was called with a {type(nd).__name__}")
         require(len(got) == len(exp) and all(g is b.of(p[0]) for g, p in zip(got, exp)), "gather",
                 f"classes={names} exact={exact} masks={pm},{fm}: expected {[p[0].uid for p in exp]} "
                 f"got {[uid_of_live.get(id(g), -1) for g in got]}")
